@@ -288,6 +288,21 @@ fn run_sync(ops: &[Value], port: u16, timeout: Duration) -> (Vec<Value>, Vec<u64
                 (None, _) => json!("skip"),
                 (_, Err(e)) => json!(format!("skip:{e}")),
             },
+            "lowsend" => match (conn.as_mut(), envelope_of(op)) {
+                // the transaction through the low-level API (command + message): an error does not end the connection, the caller goes on
+                (Some(c), Ok(env)) => {
+                    use lettre::transport::smtp::commands::{Data, Mail, Rcpt};
+                    let msg = msg_of(op);
+                    let r = (|| { c.command(Mail::new(env.from().cloned(), vec![]))?; for t in env.to() { c.command(Rcpt::new(t.clone(), vec![]))?; } c.command(Data)?; c.message(&msg) })();
+                    with_b(render(&r), c.has_broken())
+                }
+                (None, _) => json!("skip"),
+                (_, Err(e)) => json!(format!("skip:{e}")),
+            },
+            "rset" => match conn.as_mut() {
+                Some(c) => { let r = c.command(lettre::transport::smtp::commands::Rset); with_b(render(&r), c.has_broken()) }
+                None => json!("skip"),
+            },
             "auth" => match conn.as_mut() {
                 Some(c) => {
                     let creds = Credentials::new(s_of(&op["user"]), s_of(&op["pass"]));
@@ -393,6 +408,20 @@ async fn run_tokio(ops: &[Value], port: u16, timeout: Duration) -> (Vec<Value>, 
                 }
                 (None, _) => json!("skip"),
                 (_, Err(e)) => json!(format!("skip:{e}")),
+            },
+            "lowsend" => match (conn.as_mut(), envelope_of(op)) {
+                (Some(c), Ok(env)) => {
+                    use lettre::transport::smtp::commands::{Data, Mail, Rcpt};
+                    let msg = msg_of(op);
+                    let r = async { c.command(Mail::new(env.from().cloned(), vec![])).await?; for t in env.to() { c.command(Rcpt::new(t.clone(), vec![])).await?; } c.command(Data).await?; c.message(&msg).await }.await;
+                    with_b(render(&r), c.has_broken())
+                }
+                (None, _) => json!("skip"),
+                (_, Err(e)) => json!(format!("skip:{e}")),
+            },
+            "rset" => match conn.as_mut() {
+                Some(c) => { let r = c.command(lettre::transport::smtp::commands::Rset).await; with_b(render(&r), c.has_broken()) }
+                None => json!("skip"),
             },
             "auth" => match conn.as_mut() {
                 Some(c) => {
